@@ -383,9 +383,17 @@ UNIT = Unit(
                         assert(state_inv(state)); lemma_two_pools_min(state);
                         assert(liqs_mono(s0.pools@, state.pools@)) by { assert forall|k: PoolKey| #[trigger] s0.pools@.contains_key(k) implies state.pools@.contains_key(k) && state.pools@[k].liqs >= s0.pools@[k].liqs by { assert(state.pools@.contains_key(k)); } }
                         lemma_builtin_liqs(state); lemma_wd_env_mono(s0.transactions@, s0.pools@, s0.coins@.coins, state.pools@, state.coins@.coins, spec_tip(s0.network, s0.height, 180000)); }
-                        let ghost s1 = state;"""),
-                    Inject(("after_let", "state", 1), "proof { lemma_two_pools_min(state); lemma_builtin_liqs(state); lemma_wd_env_mono(s0.transactions@, s1.pools@, s1.coins@.coins, state.pools@, state.coins@.coins, spec_tip(s0.network, s0.height, 180000)); } let ghost s2 = state;"),
-                    Inject(("after_let", "state", 3), "proof { lemma_two_pools_min(state); assert(ids_new(s0.coins@.coins, state.coins@.coins)); }"),
-                    Inject(("after_let", "state", 2), "let ghost s3 = state; proof { lemma_two_pools_min(state); lemma_builtin_liqs(state); lemma_wd_env_mono(s0.transactions@, s2.pools@, s2.coins@.coins, state.pools@, state.coins@.coins, spec_tip(s0.network, s0.height, 180000)); }"), Inject(("after_let", "state", 3), "proof { lemma_two_pools_min(state); }")]),
+                        let ghost s1 = state;
+                        proof { assert(s1.coins == s0.coins); }"""),
+                    Inject(("after_let", "state", 1), """proof { lemma_two_pools_min(state); lemma_builtin_liqs(state); lemma_wd_env_mono(s0.transactions@, s1.pools@, s1.coins@.coins, state.pools@, state.coins@.coins, spec_tip(s0.network, s0.height, 180000));
+                        let rq = choose|reqs: Seq<Transaction>| #[trigger] selected(s1.transactions@, reqs, swap_pred(s1)) && swap_reqs_ok(s1.pools@, s1.coins@.coins, reqs) && swaps_done(s1.pools@, s1.coins@.coins, s1.height, reqs, mentioned_set(reqs), state.pools@, state.coins@.coins);
+                        lemma_swaps_markers(s1.pools@, s1.coins@.coins, s1.height, rq, mentioned_set(rq), state.pools@, state.coins@.coins); } let ghost s2 = state;"""),
+                    Inject(("after_let", "state", 3), """proof { lemma_two_pools_min(state); assert(ids_new(s0.coins@.coins, state.coins@.coins));
+                        let (rq, wl, wr) = choose|reqs: Seq<Transaction>, wl: spec_fn(PoolKey) -> int, wr: spec_fn(PoolKey) -> int| #[trigger] selected(s3.transactions@, reqs, withdraw_pred(s3)) && wd_reqs_ok(s3.pools@, s3.coins@.coins, reqs) && #[trigger] wds_done(s3.pools@, s3.coins@.coins, s3.height, reqs, mentioned_set(reqs), wl, wr, state.pools@, state.coins@.coins);
+                        lemma_wds_markers(s3.pools@, s3.coins@.coins, s3.height, rq, mentioned_set(rq), wl, wr, state.pools@, state.coins@.coins);
+                        if !deposit_legacy(s0.network, s0.height) { assert(markers_kept(s0.coins@.coins, state.coins@.coins)); } } let ghost s4 = state;"""),
+                    Inject(("after_let", "state", 2), """let ghost s3 = state; proof { if !deposit_legacy(s2.network, s2.height) {
+                        let (rq, mt) = choose|reqs: Seq<Transaction>, mint: spec_fn(PoolKey) -> int| #[trigger] selected(s2.transactions@, reqs, deposit_pred(s2)) && dep_reqs_ok(s2.coins@.coins, reqs) && #[trigger] deps_done(s2.pools@, s2.coins@.coins, s2.height, deposit_legacy(s2.network, s2.height), reqs, mentioned_set(reqs), mint, state.pools@, state.coins@.coins);
+                        lemma_deps_markers(s2.pools@, s2.coins@.coins, s2.height, rq, mentioned_set(rq), mt, state.pools@, state.coins@.coins); } }"""), Inject(("after_let", "state", 2), "proof { lemma_two_pools_min(state); lemma_builtin_liqs(state); lemma_wd_env_mono(s0.transactions@, s2.pools@, s2.coins@.coins, state.pools@, state.coins@.coins, spec_tip(s0.network, s0.height, 180000)); }"), Inject(("after_let", "state", 3), "proof { lemma_two_pools_min(state); }")]),
     ],
 )
